@@ -149,7 +149,7 @@ impl RwsFromStr for f32 {
 impl RwsFromStr for String {
     type E = core::convert::Infallible;
     open spec fn parses(s: Seq<char>) -> bool { true }
-    open spec fn val(s: Seq<char>) -> String { arbitrary() }
+    open spec fn val(s: Seq<char>) -> String { string_of(s) }
     #[verifier::external_body]
     fn rws_from_str(s: &str) -> (r: Result<String, core::convert::Infallible>)
         ensures r.is_ok(), r.unwrap()@ == s@,
@@ -184,4 +184,17 @@ impl RwsToString for core::str::ParseBoolError {
 pub proof fn axiom_numeric_not_ws()
     ensures forall|c: char| is_numeric_c(c) ==> !is_ws(c),
 {
+}
+
+// <String as FromStr>::from_str is the identity on the text
+pub uninterp spec fn string_of(s: Seq<char>) -> String;
+#[verifier::external_body]
+pub proof fn axiom_string_of(s: Seq<char>)
+    ensures string_of(s)@ == s,
+{
+}
+impl RwsDisp for i128 {
+    open spec fn disp(&self) -> Seq<char> { dec_i(*self as int) }
+    #[verifier::external_body]
+    fn rws_disp(&self) -> String { self.to_string() }
 }
